@@ -131,3 +131,16 @@ func specSameQuota(ue *chf_context.ChfUe, old map[int32]int64) bool {
 //@   ensures [C10] result0 != nil ==> specUe(chargingData).Cdr[chargingSessionId] != nil && specUe(chargingData).Cdr[chargingSessionId].ChargingFunctionRecord != nil
 //@   ensures [C10 C02] forall k string :: k != chargingSessionId ==> specUe(chargingData).Cdr[k] == old(specUe(chargingData).Cdr[k])
 //@   assert "err := p.UpdateCDR(cdr, chargingData)": [C02 C10] cdr == ue.Cdr[chargingSessionId] && cdr != nil && cdr.ChargingFunctionRecord != nil
+
+// Create: 201 with a Location that ends in the new session reference and the echoed sequence number, or
+// a 4xx problem; the reference is computed and the record registered under it while the subscriber lock
+// is held; the new record is what the reference designates; other sessions keep their records.
+//@ func (*Processor).ChargingDataCreate [C09 C10 C11 C12]
+//@   entry
+//@   ensures (result0 != nil) == (result2 == nil)
+//@   ensures result2 != nil ==> result2.Status >= 400 && result2.Status < 500 && result1 == ""
+//@   ensures [C12] result0 != nil ==> result0.InvocationSequenceNumber == chargingData.InvocationSequenceNumber && result0.InvocationTimeStamp != nil
+//@   ensures [C11] chargingData.NfConsumerIdentification == nil ==> result2 != nil && result2.Status == 400
+//@   assert "chargingSessionId = ueId": [C09 C10] verif_held(&ue.CULock)
+//@   assert "ue.Records = append(": [C02 C10] ue.Cdr[chargingSessionId] == cdr && cdr != nil && cdr.ChargingFunctionRecord != nil
+//@   assert "return &responseBody, locationURI, nil": [C10 C12] locationURI == self.Url+"/nchf-convergedcharging/v3/chargingdata/"+chargingSessionId && ue.Cdr[chargingSessionId] == cdr
